@@ -180,6 +180,9 @@ def spaces(tier, seed):
 
 
 # ----------------------------------------------------------------------------------------------
+CROP_LAYOUTS = ["C", "tile", "F"]
+
+
 def _run(arr, case, observe=False, **kw):
     left, right = F.datasets(arr, case["disp"], "none", **kw)
     return P.run_observed(left, right, legal.build(case["pipe"]), observe=observe, snapshot=("cv", "disp"))
@@ -296,11 +299,11 @@ def _classify(case, loc, window, flip):
     return site, f"{loc['var']}, {'rounding-level' if loc['maxabs'] <= TINY else 'different values'}"
 
 
-def _violation(case, arr, whole_obs_cache, clause, bad, window, keep, flip):
+def _violation(case, arr, whole_obs_cache, clause, bad, window, keep, flip, layout="C"):
     if whole_obs_cache[0] is None:
         whole_obs_cache[0] = _run(arr, case, observe=True)
     wo = whole_obs_cache[0]
-    oo = _run(arr, case, observe=True, window=window, keep_coords=keep, flip=flip)
+    oo = _run(arr, case, observe=True, window=window, keep_coords=keep, flip=flip, layout=layout)
     loc = _localise(case, wo, oo, window, flip) if not (wo.error or oo.error) else None
     site, cls = _classify(case, loc, window, flip)
     where = ""
@@ -313,6 +316,14 @@ def _violation(case, arr, whole_obs_cache, clause, bad, window, keep, flip):
             where += f", disparity entering the step there {float(loc['entering'][0])!r}"
     framing = "vertical flip" if flip else (f"crop origin ({window[0]},{window[1]}) size {window[2]}x{window[3]} "
                                             f"coordinates {'kept' if keep else 'restarted at 0'}")
+    if layout != "C":
+        framing += f", arrays handed over in memory layout '{layout}'"
+        # the same framing with freshly copied C-ordered arrays: does the difference come from the layout alone?
+        cc = _run(arr, case, window=window, keep_coords=keep, flip=flip)
+        region = (0, case["ny"], 0, case["nx"]) if flip else C.interior(case["pipe"], case["disp"], window)
+        shift = (0, 0) if flip else (window[0], window[1])
+        if not cc.error and not _compare_final(wo, cc, region, shift, flip):
+            cls += f", only with memory layout '{layout}'"
     return {
         "clause": clause, "key": f"C13/{clause}/{site}/{cls}",
         "detail": f"pipeline {legal.describe(case['pipe'])}, whole image {case['ny']}x{case['nx']} mask={case['mask']} "
@@ -371,13 +382,15 @@ def run_case(case):
             n += 1
             continue
         n += 1
-        crop = _run(arr, case, window=window, keep_coords=keep)
+        # how the tile is handed over: a fresh copy, a zero-copy window of a larger array, or column-major
+        lay = CROP_LAYOUTS[(window[0] + 2 * window[1] + window[2] + int(keep)) % 3]
+        crop = _run(arr, case, window=window, keep_coords=keep, layout=lay)
         if crop.error:
-            if _is_a2(case, arr, crop.error, dict(window=window, keep_coords=keep)):
+            if _is_a2(case, arr, crop.error, dict(window=window, keep_coords=keep, layout=lay)):
                 trivial += 1
                 continue
             viol.append(_raises(case, arr, "crop-invariance", crop.error,
-                                dict(window=window, keep_coords=keep),
+                                dict(window=window, keep_coords=keep, layout=lay),
                                 f"crop {window} (coordinates {'kept' if keep else 'restarted'})"))
             continue
         if len(_products(crop)) != len(_products(whole)):
@@ -388,7 +401,7 @@ def run_case(case):
         rl, rh, cl, ch = region
         distinct_vals.update(np.unique(whole.left["disparity_map"].data[rl:rh, cl:ch]).tolist()[:4])
         if bad:
-            viol.append(_violation(case, arr, cache, "crop-invariance", bad, window, keep, False))
+            viol.append(_violation(case, arr, cache, "crop-invariance", bad, window, keep, False, lay))
     # ---- vertical flip
     n += 1
     flipped = _run(arr, case, flip=True)
